@@ -1202,6 +1202,10 @@ func (w *world) checkQuiescentStrict() {
 
 // ---------------------------------------------------------------- running one case
 
+// caseProgress is bumped at every step of every case (see world.addStep):
+// the stall watchdog of runInBubble watches it.
+var caseProgress atomic.Uint64
+
 type caseResult struct {
 	script []step
 	labels map[string]int
@@ -1234,18 +1238,19 @@ func runInBubble(t *testing.T, mk func() *world, body func(w *world)) (*caseResu
 	// A request that blocks on a mutex (a lock that an earlier call
 	// leaked, or a lock-order deadlock) is not "durably blocked", so
 	// synctest.Wait never returns and the case hangs. Time inside the
-	// bubble is fake; this timer is created outside of it and runs on real
-	// time. A case normally takes milliseconds.
+	// bubble is fake; the stall watchdog runs outside of it on real time
+	// and looks at progress, not at total duration (see simkit).
 	var hung atomic.Pointer[world]
-	watchdog := time.AfterFunc(45*time.Second, func() {
+	caseProgress.Add(1)
+	stopWatchdog := simkit.StallWatchdog(&caseProgress, 90, func() {
 		script := "(world not created)"
 		if w := hung.Load(); w != nil {
 			script = formatScript(w.script)
 		}
-		fmt.Printf("VERIF-VIOLATION property=C14: the case did not finish within 45 s of real time: a call is blocked on a mutex that is never released (leaked lock or deadlock inside the NFSv4.1 program, the opened files pool, the handle allocator or the directory)\nscript so far:\n%s", script)
+		fmt.Printf("VERIF-VIOLATION property=C14: no step of the case completed during 90 s in which this process was running: a call is blocked on a mutex that is never released (leaked lock or deadlock inside the NFSv4.1 program, the opened files pool, the handle allocator or the directory)\nscript so far:\n%s", script)
 		os.Exit(1)
 	})
-	defer watchdog.Stop()
+	defer stopWatchdog()
 	func() {
 		defer func() {
 			// A goroutine that is blocked forever makes the bubble panic
